@@ -73,6 +73,7 @@ pub fn check(c: &Case) -> CheckResult {
     let Some(inv) = xf_inverse64(&c.ctm) else { return Err("HARNESS: singular CTM generated".into()) };
     let mut dt = DrawTarget::new(c.w, c.h);
     dt.set_transform(&to_transform(&c.ctm));
+    harmless_prelude(&mut dt, (c.w * 7 + c.h * 13 + c.img.w * 5 + c.img.h * 3 + c.nearest as i32) as u32);
     let src = SrcSpec::Image { img: c.img.clone(), repeat: c.repeat, nearest: c.nearest, xf: c.sxf };
     // cover the whole surface: Src at full coverage (fill of the inverse image of an enlarged surface rectangle)
     let mut pb = PathBuilder::new();
